@@ -12,19 +12,18 @@ PROP = dict(
     level='proof',
     regen=['crctable', 'wireconsts'],
     theorems=['Fit.C01.C01_wire_records', 'Fit.C01.C01_wire_sequence', 'Fit.C01.C01_wire_chain',
-              'Fit.C01.C01_ts_nonmonotone_witness', 'Fit.C01.C01_wire_records_full_fails'],
+              'Fit.C01.C01_ts_nonmonotone_roundtrip', 'Fit.C01.C01_ts_wild_roundtrip', 'Fit.C01.C01_fix_conservative'],
     families=[dict(name='encw'), dict(name='decw'), dict(name='rtw', prop=True)],
     trusted_base=STD_TRUST + [
         "wire-level model FitModel/Wire.lean (encoder framing, LRU, compressed timestamps, header/CRC, chained files; decoder framing and timestamp tracking) is hand-written and tied by the families encw (real encoder, pass-through validator, 4 writer kinds, 10 buffer sizes), decw (real decoder on fixtures, encoder outputs and mutants, listener events) and rtw (real encode→decode with the round-trip predicate evaluated by the Lean driver)",
         "a field value is its marshalled byte string at this level; unmarshal∘marshal is C06, validation is C10",
         "constants (masks, DateTimeMin, profile version, valid base types, messages whose field 253 the factory knows) are regenerated from the compiled repository on every run (Generated/WireConsts.lean)",
     ],
-    assumptions=["inputs to the theorems satisfy MsgOK/FitOK (what validation lets through; established by C10)",
-                 "compressed-header mode: timestamps valid, unique per message and non-decreasing (TsMono) — outside it the pinned tree violates the property (KF-C01-ts)"],
+    assumptions=["inputs to the theorems satisfy MsgOK/FitOK (typing only: counts and sizes fit a byte, valid base types, field data are bytes, the record bytes fit the 32-bit data size; established by C10) — no hypothesis on timestamps any more (KF-C01-ts is fixed in /repo)"],
 )
 
 TEXT = dict(
-    technique='Lean 4 proof: simulation invariant between the encoder LRU and the decoder definition table + timestamp invariant, induction over messages and over chained files; model tied by three differential families; property predicate evaluated on the real encode→decode output',
-    text='C01_wire_records / C01_wire_sequence / C01_wire_chain: for every message list, byte order, header option, 1..16 local message types (every LRU eviction pattern), 12/14-byte headers, with or without checksum, single and chained files, decoding what the encoder wrote returns the same message numbers in order with the same fields, developer fields and (for compressed-timestamp records) the original full timestamp. The value layer (unmarshal∘marshal) is C06; the validated form of a message is C10. The full statement without the timestamp hypothesis is proved false (C01_wire_records_full_fails) and the same input fails on the real code (known finding KF-C01-ts).',
+    technique='Lean 4 proof: simulation invariant between the encoder LRU and the decoder definition table + timestamp invariant (LastInv, kept by both sides over every field 253 of every record: track_sim), induction over messages and over chained files; model tied by three differential families; property predicate evaluated on the real encode→decode output',
+    text='C01_wire_records / C01_wire_sequence / C01_wire_chain: for every message list, byte order, header option, 1..16 local message types (every LRU eviction pattern), 12/14-byte headers, with or without checksum, single and chained files, whatever factory the decoder has, decoding what the encoder wrote returns the same message numbers in order with the same fields, developer fields and (for compressed-timestamp records) the original full timestamp — for ALL timestamp histories: going backwards inside or beyond the 32 s window, repeated, invalid, below DateTimeMin, several fields 253 in a message, fields 253 of any type and size (invariant: the encoder\'s lastTimestamp is 0 = "cannot tell" or exactly the decoder\'s active timestamp; a timestamp is compressed only within 32 s of both the roll-over reference and that last timestamp). The value layer (unmarshal∘marshal) is C06; the validated form of a message is C10. History: the pinned tree violated this for non-monotonic / invalid / duplicated / oddly typed timestamps (finding KF-C01-ts, found by this check, fixed in /repo by 1fdeae5); C01_ts_nonmonotone_roundtrip evaluates the former witness (t, t+20, t+5 came back as t, t+20, t+37) in the kernel, C01_ts_wild_roundtrip a history with all the oddities; C01_fix_conservative: on valid, unique, non-decreasing timestamps the repaired encoder model writes byte for byte what the pinned tree\'s encoder model wrote.',
     note='Trusted: Lean kernel; the hand-written wire model (tied, not verified, by encw/decw/rtw on the real packages); harness and driver parsers. Writer kind/buffering enter through C09; value interpretation by the decoder (profile look-ups, fallbacks) through the dec family once the value model is merged.',
 )
